@@ -34,6 +34,13 @@ TABLE = os.path.join(VERIF, "tables", "c03.json")
 SSD = "ruzstd::decoding::sequence_section_decoder"
 
 PANIC_REASONS = {
+    "Read>::read|partial:copy_from_slice": "total: the destination is sliced to the source's length right at the call ([..buf.len()]; io_nostd's &[u8] reader: [..size] with to_copy = split_at(size).0)",
+    "Write>::write|partial:split_at_mut": "total (io_nostd's &mut [u8] writer): amt = min(data.len(), self.len()) <= self.len()",
+    "Write>::write|partial:copy_from_slice": "total (io_nostd's &mut [u8] writer): both sides have length amt (split_at_mut(amt).0 and data[..amt])",
+    "Read>::read|partial:split_at": "total (io_nostd's &[u8] reader): size = min(buf.len(), self.len()) <= self.len()",
+    "DecodeBuffer::read_all|partial:copy_from_slice": "total: the destination is sliced to the source's length ([..buf.len()]) right at the call",
+    "BitReaderReversed::refill|partial:copy_from_slice": "total: the destination is sliced to the source's length ([..self.source.len()], under source.len() < 8)",
+    "ringbuffer::copy_bytes_overshooting|partial:next_multiple_of": "total: constant non-zero multiple (size of the copy type)",
     "BitReader::get_bits|assert": "arith: internal bookkeeping identities of the forward bit reader",
     "BitReader::return_bits|panic": "arith: callers return 1 bit right after reading >= 2 (FSE zero-run reader)",
     "BitReaderReversed::refill|unwrap": "total: slices [..8] under the branch's length condition convert to [u8; 8]",
@@ -120,7 +127,7 @@ def enumerate_all(ctx, known=None):
     g = INV.guards(crate, fns, new - inl)
     for x in g:
         x["fn"] = _short(x["fn"])
-    p = INV.reattribute(INV.panics(crate, fns), own_hir)
+    p = INV.reattribute(INV.panics(crate, fns) + INV.partial_calls(crate, fns), own_hir)
     for x in p:
         x["fn"] = _short(x["fn"])
     l = INV.reattribute(INV.loops(crate, fns), own_hir)
@@ -208,7 +215,9 @@ def run(ctx):
     # (b) panics
     INV.compare_counts(ctx, "C03.inventory.panics", "explicit panic construct(s)", p, T["panics"], ("fn", "kind"))
     tot = len([x for x in p if x["kind"] != "debug_assert"])
-    ctx.check(tot <= 39, "C03.inventory.panics", "total-non-debug", "", "more explicit panic sites than the 39 reviewed", observed=tot, expected=39)
+    rev = sum(v["count"] for k, v in T["panics"].items() if not k.endswith("|debug_assert"))
+    ctx.check(tot <= rev, "C03.inventory.panics", "total-non-debug", "", "more panic sites (explicit constructs and value-partial std calls) than the %d reviewed" % rev,
+              observed=tot, expected=rev)
     ctx.floor("C03.inventory.panics", len(p), 30, "explicit panic constructs found (enumeration sanity)")
 
     # (c) unsafe
